@@ -244,6 +244,18 @@ pub fn dump(storage: &Storage, sites: &[Site], prefix: &str, out: &mut Vec<Strin
             idxs(&evs),
             idxs(&ff)
         ));
+        // ---- the by-name views of the same values (C05: "its values")
+        for (k, v) in s.values() {
+            let by_name = s.value(k).map(crate::proto::Val::from_real);
+            let indexed = catch_unwind(AssertUnwindSafe(|| crate::proto::Val::from_real(&s[k]))).ok();
+            let want = Some(crate::proto::Val::from_real(v));
+            if by_name != want || indexed != want {
+                fails.push(format!("C05 span {i}: value({k:?}) = {by_name:?}, [{k:?}] = {indexed:?}, but its values list {want:?} under that name"));
+            }
+        }
+        if s.value("no such field").is_some() {
+            fails.push(format!("C05 span {i}: value() of a name that was never recorded is not None"));
+        }
         // ---- C17 laws on the real storage
         for c in s.children() {
             if c.parent().map(|p| spos(&p)) != Some(i) {
@@ -322,6 +334,17 @@ pub fn dump(storage: &Storage, sites: &[Site], prefix: &str, out: &mut Vec<Strin
             entries_tok(&vals),
             e.parent().map_or("-".into(), |p| spos(&p).to_string())
         ));
+        for (k, v) in e.values() {
+            let by_name = e.value(k).map(crate::proto::Val::from_real);
+            let indexed = catch_unwind(AssertUnwindSafe(|| crate::proto::Val::from_real(&e[k]))).ok();
+            let want = Some(crate::proto::Val::from_real(v));
+            if by_name != want || indexed != want {
+                fails.push(format!("C05 event {j}: value({k:?}) = {by_name:?}, [{k:?}] = {indexed:?}, but its values list {want:?} under that name"));
+            }
+        }
+        if e.value("no such field").is_some() {
+            fails.push(format!("C05 event {j}: value() of a name that was never recorded is not None"));
+        }
         match e.parent() {
             Some(p) => {
                 if !p.events().any(|x| x == *e) {
